@@ -407,7 +407,7 @@ class Token:
         return f"Token({self.type.name}, {self.value}, Position={self.lineno}:{self.column})"
 
 
-RE_FLOAT = re.compile(r"[-+]?[0-9]*\.?[0-9]+([eE][-+]?[0-9]+)?")
+RE_FLOAT = re.compile(r"[-+]?(?:[0-9]+\.?[0-9]*|\.[0-9]+)(?:[eE][-+]?[0-9]+)?")
 
 
 class Lexer:
@@ -437,7 +437,7 @@ class Lexer:
             case "|":
                 return self._token(TokenType.OR, word)
 
-            case _ if RE_FLOAT.match(word) is not None:
+            case _ if RE_FLOAT.fullmatch(word) is not None:
                 return self._token(TokenType.FLOAT, float(word))
 
             case _:
